@@ -477,6 +477,7 @@ Section Single.
   Hypothesis Hci : length ci = length cs.
   Hypothesis Hms : py_pos (length ms) t = Some p.
   Hypothesis Hmi : length mi = length ms.
+  Hypothesis Hid : id <> us_id.         (* the model is not keyed '_' (its check values would replace the linker's own) *)
 
   Definition core1 : comp num := mkComp cd (mkState cv cs ci cl).
   Definition m0 : mstate num := mkState mv ms mi ml.
@@ -519,7 +520,11 @@ Section Single.
   Lemma gcv_S1 v it lg' :
     get_check_values num zero [id] t (S1 v ms it lg') = inl [[]; get_check num zero d v p].
   Proof.
-    unfold Linker.get_check_values, Linker.comp_check. cbn [S1 l_core l_subs core1 c_desc c_st status vals_of].
+    unfold Linker.get_check_values, Linker.comp_check.
+    replace (us_shadow num [id] (S1 v ms it lg')) with false.
+    2:{ unfold Linker.us_shadow, selected. cbn [existsb]. replace (Nat.eqb us_id id) with false; [reflexivity|].
+        symmetry. apply Nat.eqb_neq. intros E. apply Hid. symmetry. exact E. }
+    cbn [S1 l_core l_subs core1 c_desc c_st status vals_of].
     rewrite Hcheck. cbn [Linker.subs_check]. unfold selected. cbn [existsb]. rewrite Nat.eqb_refl. cbn [orb].
     unfold Linker.comp_check. cbn [c_desc c_st status vals_of]. rewrite Hms.
     destruct (check d) eqn:E; [|reflexivity]. unfold get_check. rewrite E. reflexivity.
